@@ -97,14 +97,16 @@ def fold_eq(s, lit):
 
 
 class StrExec:
-    def __init__(self, fn, enum_name, user_fns):
+    def __init__(self, fn, enum_name, user_fns, input_var="_1", disc=None):
         self.fn = fn
         self.enum = enum_name
         self.user_fns = set(user_fns)
         self.leaves = []          # (cond, outcome)
+        self.input_var = input_var
+        self.disc = disc          # concrete discriminant of `*self` for &self methods (EnumProperty getters)
 
     def run(self):
-        self.block("bb0", {"_1": ("input",)}, "true", 0)
+        self.block("bb0", {self.input_var: ("input",)}, "true", 0)
         return self.leaves
 
     def val(self, env, tok):
@@ -126,6 +128,16 @@ class StrExec:
             return ("lit", rust_lit_value(m.group(1)))
         if re.match(r"const %s::(\w+)$" % re.escape(self.enum), tok):
             return ("variant", tok.split("::")[-1], [])
+        m = re.match(r"const (-?\d+)_i64$", tok)
+        if m:
+            return ("i64", int(m.group(1)))
+        if tok == "const i64::MAX":
+            return ("i64", 2 ** 63 - 1)
+        if tok == "const i64::MIN":
+            return ("i64", -2 ** 63)
+        m = re.match(r"const (true|false)$", tok)
+        if m:
+            return ("boolc", m.group(1) == "true")
         if tok.startswith("const "):
             return ("opaque", tok)
         raise Unsupported("operand " + tok)
@@ -143,6 +155,17 @@ class StrExec:
             m = re.match(r"goto -> (bb\d+);", st)
             if m:
                 return self.block(m.group(1), env, cond, depth + 1)
+            m = re.match(r"switchInt\((?:move|copy) (_\d+)\) -> \[(.*)\];", st)
+            if m and isinstance(env.get(m.group(1)), tuple) and env[m.group(1)][0] == "int":
+                val = env[m.group(1)][1]
+                tgt = None
+                for t in m.group(2).split(", "):
+                    k, b = t.split(": ")
+                    if k != "otherwise" and int(k) == val:
+                        tgt = b
+                if tgt is None:
+                    tgt = [t.split(": ")[1] for t in m.group(2).split(", ") if t.startswith("otherwise")][0]
+                return self.block(tgt, env, cond, depth + 1)
             m = re.match(r"switchInt\((?:move|copy) (_\d+)\) -> \[0: (bb\d+), otherwise: (bb\d+)\];", st)
             if m:
                 v = env.get(m.group(1))
@@ -229,6 +252,14 @@ class StrExec:
             elif m.group(3) is not None and m.group(3).strip():
                 fields = [self.val(env, a.split(":", 1)[1]) for a in split_args(m.group(3))]
             return ("variant", m.group(1), fields)
+        if r == "discriminant((*_1))" and self.disc is not None:
+            return ("int", self.disc)
+        m = re.match(r"Option::<.*>::None$", r)
+        if m:
+            return ("none",)
+        m = re.match(r"Option::<.*>::Some\((.+)\)$", r)
+        if m:
+            return ("some", self.val(env, m.group(1)))
         m = re.match(r"Result::<.*>::Ok\((.+)\)$", r)
         if m:
             return ("ok", self.val(env, m.group(1)))
@@ -347,3 +378,37 @@ def from_str_vcs(fns, spec, spellings_of, is_ci, user_fns, err_fn=None):
         vcs.append({"name": "complete_" + ident, "what": "every spelling of %s that no earlier variant claims parses to it" % ident,
                     "script": "(assert %s)\n(assert (not %s))" % (oracle_is(ident), reach), "twin": "(assert %s)" % oracle_is(ident)})
     return vcs, ["<%s as FromStr>::from_str [MIR]" % spec.name]
+
+
+def props_vcs(fns, spec, discs, tables):
+    """EnumProperty getters: tables[variant ident][ty] = {key: value} for ty in str/int/bool (empty for disabled variants).
+    One run per (getter, declared variant) with the discriminant concretised; the key is an UNBOUNDED SMT string."""
+    vcs, used = [], []
+    for getter, ty, wrap in (("get_str", "str", lambda x: ("lit", x)), ("get_int", "int", lambda x: ("i64", x)), ("get_bool", "bool", lambda x: ("boolc", x))):
+        c = [f for f in fns if f["short"] == getter and re.search(r"_1: &%s(<[^>]*>)?, _2: &str" % re.escape(spec.name), f["args"])]
+        if len(c) != 1:
+            raise Unsupported("cannot find %s of %s" % (getter, spec.name))
+        used.append("<%s as EnumProperty>::%s [MIR]" % (spec.name, getter))
+        for v, d in zip(spec.variants, discs):
+            tbl = tables[v.ident][ty]
+            leaves = StrExec(c[0], spec.name, [], input_var="_2", disc=d).run()
+            total = []
+            for n, (cond, oc) in enumerate(leaves):
+                total.append(cond)
+                if oc is None or oc[0] not in ("some", "none"):
+                    raise Unsupported("%s returns something that is not Some(const)/None" % getter)
+                if oc[0] == "none":
+                    goal = AND(*[NOT("(= s %s)" % smt_str(k)) for k in tbl])
+                    what = "%s(%s, key) is None only for undeclared keys" % (getter, v.ident)
+                else:
+                    goal = OR(*[("(= s %s)" % smt_str(k)) for k, x in tbl.items() if wrap(x) == oc[1]])
+                    what = "%s(%s, key) == %r only for the key(s) declared with that value" % (getter, v.ident, oc[1][1])
+                vcs.append({"name": "%s_%s_leaf%d" % (getter, v.ident, n), "what": what,
+                            "script": "(assert %s)\n(assert (not %s))" % (cond, goal), "twin": "(assert %s)" % cond})
+            vcs.append({"name": "%s_%s_total" % (getter, v.ident), "what": "every key reaches a return",
+                        "script": "(assert (not %s))" % OR(*total), "twin": "(assert true)"})
+            for k, x in tbl.items():
+                reach = OR(*[cnd for cnd, oc in leaves if oc and oc[0] == "some" and oc[1] == wrap(x)])
+                vcs.append({"name": "%s_%s_has_%s" % (getter, v.ident, k), "what": "declared key %r of %s returns its value" % (k, v.ident),
+                            "script": "(assert (= s %s))\n(assert (not %s))" % (smt_str(k), reach), "twin": "(assert (= s %s))" % smt_str(k)})
+    return vcs, used
